@@ -417,14 +417,38 @@ def lifetime(repo: Repo, chk: Check) -> None:
     # pointers
     # any table store whose value adds a memory's start address is the pointer hand-out
     ptr = [s for s in fl.stmts(ast.Assign) if s.reachable and isinstance(s.node.targets[0], ast.Subscript) and isinstance(s.node.targets[0].value, ast.Name)
+           and isinstance(s.node.value, ast.BinOp) and isinstance(s.node.value.op, ast.Add)
            and (norm.contains(fl.cone(s.node.value, s, inline=0), T("$m.start")) or "pointer" in ast.unparse(s.node.targets[0].value))]
-    okp = any(norm.any_match(["$off + $m.start", "$m.start + $off"], s.node.value) is not None for s in ptr)
+    # pointer = solver offset + base, base = memory.start or memory.start rounded up
+    okp = False
+    aligned_base = False
+    base_txt = None
+    for s in ptr:
+        m_ = norm.any_match(["$off + $base", "$base + $off"], s.node.value)
+        if m_ is None:
+            continue
+        for off_, base_ in ((m_["off"], m_["base"]), (m_["base"], m_["off"])):
+            cb = fl.cone(base_, s, inline=0)
+            # the base is the operand that is computed from memory.start itself (the offset comes out of the solver, whose capacity argument may mention the start too)
+            if norm.contains(norm.primary(s.expand(base_)), T("$m.start")) and not norm.contains(norm.primary(s.expand(off_)), T("$m.start")):
+                okp = True
+                base_txt = ast.unparse(base_)
+                # rounded up to an alignment: -(-start // a) * a   /   (start + a - 1) // a * a
+                aligned_base = aligned_base or any(norm.any_match(["-(-$m.start // $a) * $a", "($m.start + $a - 1) // $a * $a", "($m.start + ($a - 1)) // $a * $a",
+                                                                    "$a * -(-$m.start // $a)"], n_) is not None for n_ in ast.walk(cb) if isinstance(n_, ast.BinOp))
     ptr_tables = {ast.unparse(s.node.targets[0].value) for s in ptr}
-    chk.result(okp, "C11.lifetime", f"{f.key}:pointer", ptr[0].where() if ptr else f.where, "pointer = solver offset + memory.start",
+    chk.result(okp, "C11.lifetime", f"{f.key}:pointer", ptr[0].where() if ptr else f.where, "pointer = solver offset + a base taken from memory.start",
                "the pointer handed out is no longer `solver offset + memory.start`")
+    # the solver hands out offsets that are multiples of each buffer's alignment: the address is aligned only if the base is
+    chk.result(aligned_base, "C11.lifetime", f"{f.key}:aligned-base", ptr[0].where() if ptr else f.where,
+               "the offsets count from memory.start rounded up to the buffers' alignment",
+               f"the solver's offsets are added to `{base_txt}` as it is: for a memory window that does not start at a multiple of the alignment (start 0x10000020, alignment 64) "
+               "every buffer is misaligned by start % alignment (findings/C11_minimalloc_unaligned_start)")
     probs = [s for s in fl.calls("Problem") if s.reachable]
-    okc = any(len(s.node.args) >= 2 and norm.match(T("$m.capacity"), s.node.args[1]) is not None for s in probs)
-    chk.result(okc, "C11.lifetime", f"{f.key}:capacity", probs[0].where() if probs else f.where, "the solver is bounded by memory.capacity",
+    okc = any(len(s.node.args) >= 2 and (norm.match(T("$m.capacity"), s.node.args[1]) is not None
+                                         or norm.any_match(["$m.capacity - ($b - $m.start)", "$m.capacity - $b + $m.start", "$m.capacity + $m.start - $b"], s.node.args[1]) is not None)
+              for s in probs)
+    chk.result(okc, "C11.lifetime", f"{f.key}:capacity", probs[0].where() if probs else f.where, "the solver is bounded by memory.capacity (less what rounding the base up takes)",
                "the solver is no longer given the capacity of the memory")
     okm = False
     for s in probs:
